@@ -273,6 +273,11 @@ func LoadPackage(dir string) (*PackageInfo, error) {
 
 		versionInfo, err := loadPackageVersion(vdir)
 		if err != nil {
+			// As for imports: keep what is known about the version that failed to
+			// load, so that watch mode watches its directory.
+			if versionInfo != nil {
+				packageInfo.Versions[i].Package = versionInfo
+			}
 			return packageInfo, err
 		}
 
@@ -307,13 +312,14 @@ func readPackageInfo(directory string) (*PackageInfo, error) {
 	if err != nil {
 		return nil, err
 	}
-	_, err = os.Stat(packageDir)
-	if os.IsNotExist(err) {
-		return nil, fmt.Errorf("package directory '%s' not found", packageDir)
-	}
-
 	packageFilePath := filepath.Join(packageDir, PackageFileName)
 	packageInfo := &PackageInfo{FilePath: packageFilePath}
+	_, err = os.Stat(packageDir)
+	if os.IsNotExist(err) {
+		// packageInfo still says where the package is expected
+		return packageInfo, fmt.Errorf("package directory '%s' not found", packageDir)
+	}
+
 	f, err := os.Open(packageFilePath)
 	if err != nil {
 		if os.IsNotExist(err) {
